@@ -515,6 +515,10 @@ class Crash(BaseException):
     """process death injected at an effect"""
 
 
+class _Enospc(Exception):
+    """private: tells the stubbed aio_write to report ENOSPC through its callback"""
+
+
 class _OsPath(object):
     def __init__(self, h):
         self.h = h
@@ -551,7 +555,18 @@ class _OsProxy(object):
 
     def listdir(self, path):
         self.h.effect(('listdir',))
-        return os.listdir(path)
+        # os.listdir order is unspecified: taken in ascending id order (as the model does)
+        def key(fn):
+            stem = fn.split('.')[0]
+            return (0, int(stem)) if stem.isdigit() else (1, 0)
+        return sorted(os.listdir(path), key=key)
+
+    def close(self, fd):
+        t = self.h.fd_tmp.get(fd)
+        if t is not None:
+            self.h.effect(('close', t))
+            self.h.fd_tmp.pop(fd, None)
+        return os.close(fd)
 
 
 class DiskHarness(object):
@@ -559,7 +574,7 @@ class DiskHarness(object):
 
     effect(desc) is called BEFORE each file-system command is carried out:
       ('exists', path) ('mktemp', t) ('write', t, off, bytes) ('rename', t, path)
-      ('unlink', path) ('read', path) ('listdir',)
+      ('unlink', path) ('read', path) ('listdir',) ('close', t)  [os.close of a temp file's descriptor]
     with path = (0, id) for <id>.env, (1, id) for <id>.meta, (2, t) for a temp.
     It (1) waits on the gate if one is installed, (2) raises Crash if this is
     the crash_at-th effect (0-based), (3) logs."""
@@ -571,6 +586,9 @@ class DiskHarness(object):
         self.gate = gate
         self.log = []
         self.crash_at = None
+        self.abort_at = None     # abort with unwinding: one exception at this effect, cleanup effects then run for real
+        self.abort_mode = 'exit' # 'exit': GreenletExit; 'enospc': the aio_write callback reports ENOSPC
+        self.aborted = False
         self.quiet = False       # recovery reads by the harness: no log, no gate, no crash
         self.fd_tmp = {}
         self.on_effect = None
@@ -666,6 +684,11 @@ class DiskHarness(object):
             self.gate(desc)
         if self.crash_at is not None and len(self.log) == self.crash_at:
             raise Crash()
+        if self.abort_at is not None and not self.aborted and len(self.log) == self.abort_at:
+            self.aborted = True
+            if self.abort_mode == 'enospc' and desc[0] == 'write':
+                raise _Enospc()
+            raise gevent.GreenletExit()
         self.log.append(desc)
         if self.on_effect:
             self.on_effect(desc)
@@ -681,7 +704,12 @@ class DiskHarness(object):
 
     def _aio_write(self, fd, piece, offset, callback):
         data = bytes(piece)
-        self.effect(('write', self.fd_tmp.get(fd, -1), offset, data))
+        try:
+            self.effect(('write', self.fd_tmp.get(fd, -1), offset, data))
+        except _Enospc:
+            import errno
+            callback(-1, errno.ENOSPC)
+            return
         n = os.pwrite(fd, data, offset) if data else 0
         callback(n, 0)
 
